@@ -162,7 +162,7 @@ pub fn run_cup(p: &Profile, cfg: &RunCfg) -> (RunOut, MonOut) {
         for e in 0..n {
             let key = format!("x#{e}");
             let mut w = lock(&world);
-            let mutation = w.draws.draw(&format!("{key}/mut"), 27);
+            let mutation = w.draws.draw(&format!("{key}/mut"), 28);
             // a handler is stateful in principle: sometimes the authentic exchange is verified
             // first and the tampered one right after it on the same handler
             let authentic_first = mutation != 0 && w.draws.draw(&format!("{key}/authentic_first"), 3) == 0;
@@ -367,6 +367,24 @@ pub fn run_cup(p: &Profile, cfg: &RunCfg) -> (RunOut, MonOut) {
                     }
                     breaking = None;
                     if mutation == 24 { "signature_padded".into() } else { "signature_prefixed".into() }
+                }
+                27 => {
+                    // re-signed with ANOTHER REGISTERED key (not the one of the id the request was sent
+                    // with): only breaking when the key material differs
+                    match server_keys.iter().find(|(id, _)| *id != kid) {
+                        Some((_, other)) => {
+                            let this = server_keys.iter().find(|(id, _)| *id == kid).map(|(_, k)| *k).unwrap();
+                            if *other == this {
+                                breaking = None;
+                            }
+                            etag = Some(sign_etag(&keys()[*other], &meta.request_body, &body, &c2k).into_bytes());
+                            "resign_other_registered_key".into()
+                        }
+                        None => {
+                            etag = Some(sign_etag(&keys()[attacker], &meta.request_body, &body, &c2k).into_bytes());
+                            "resign_other_key".into()
+                        }
+                    }
                 }
                 26 => {
                     // a '0' high nibble written as '+' (a lenient integer parser reads "+2" as 2)
